@@ -139,16 +139,19 @@ def structure_and_roundtrip(case, ctx):
         strategy=lambda: st.tuples(c02_case(allow=('counter', 'stat', 'tanh')),
                                    st.sampled_from(['leaf', 'subtree', 'shape',
                                                     'collection']),
-                                   st.integers(0, 1000), st.booleans()),
+                                   st.integers(0, 1000), st.booleans(),
+                                   st.sampled_from(['false', 'true',
+                                                    'params', 'state'])),
         quick=500, thorough=30000, quick_shards=4,
         rule='one leaf / one module subtree / one whole collection is removed '
         'from the init tree, or one dimension of one parameter is changed; '
         'apply must raise ScopeParamNotFoundError / ScopeCollectionNotFound / '
-        'ScopeVariableNotFoundError / ScopeParamShapeError (never re-'
+        'ScopeVariableNotFoundError / ScopeParamShapeError, a wrong shape also '
+        'when params are mutable (never re-'
         'initialise, even when a params rng is supplied); non-trivial = the '
         'damaged entry is nested (path length>=2)')
 def missing_or_misshaped(case, ctx):
-  case, kind, pick, give_rng = case
+  case, kind, pick, give_rng, mut = case
   case = L.normalize_case(case)
   mod = L.make_root(case)
   x = L.make_input(case)
@@ -192,12 +195,21 @@ def missing_or_misshaped(case, ctx):
   errs = (ferrors.ScopeParamNotFoundError, ferrors.ScopeCollectionNotFound,
           ferrors.ScopeVariableNotFoundError, ferrors.ScopeParamShapeError)
   rngs = {'params': jax.random.key(1)} if give_rng else None
-  e = expect_raises(errs, lambda: mod.apply(v, x, rngs=rngs),
-                    f'apply with {kind} damaged at {target}')
+  # a wrong shape must be rejected whatever is mutable; a *missing* variable
+  # is legitimately created when its collection is mutable, so the removal
+  # kinds are applied with the damaged collection immutable only
+  if kind == 'shape':
+    mutable = {'false': False, 'true': True, 'params': ['params'],
+               'state': ['batch_stats', 'cache', 'counters']}[mut]
+  else:
+    mutable = False if target[0] == 'params' or mut != 'state' else [
+        c for c in ('batch_stats', 'cache', 'counters') if c != target[0]]
+  e = expect_raises(errs, lambda: mod.apply(v, x, rngs=rngs, mutable=mutable),
+                    f'apply(mutable={mutable}) with {kind} damaged at {target}')
   if kind == 'shape':
     require(isinstance(e, ferrors.ScopeParamShapeError),
             lambda: f'wrong shape at {target} raised {type(e).__name__}')
-  ctx.note(labels=[kind, 'rng' if give_rng else 'norng'],
+  ctx.note(labels=[kind, 'rng' if give_rng else 'norng', f'mutable:{mut}'],
            nontrivial=len(target) >= 3)
 
 
